@@ -48,6 +48,22 @@ CHECKS = {
         note="Trusted: receiver typing and call resolution of sa/resolve.py + sa/callgraph.py (name-based fallback for unknown receivers); the ZONE_CUT list and tables/R09.1.json (each entry one construct with a reason). Assumes C02's gates reject on snapshot mismatch (checked by R02.1).",
         design="DESIGN.md §4 C09",
     ),
+    "C11": dict(
+        rules="R11.1-R11.5, R11.7-R11.10",
+        what="wire grammar of write equals wire grammar of read for 46 serializer classes and the helper pairs, down to librt primitives; field and flag label alignment; tag table integrity and dispatcher exhaustiveness; JSON key/attribute agreement and JSON==binary attribute sets; count/emit filter agreement; sorted iteration in interface serializers; order discipline (only sets may be written sorted); __eq__ fields and declared attributes covered by serialization",
+        quant="symbols, types and flag combinations of all modules",
+        technique="wire-grammar extraction (abstract interpretation of serializer bodies in evaluation order) and structural term comparison; sibling cross-checks",
+        note="Trusted base: the librt.internal primitive pairs round-trip their argument; extract_symbol consumes one tagged object; CPython evaluation order. Value-level inverses (ARG_KINDS[int(x.value)], bytes.fromhex(x.hex())) are not decided. One known finding (symbol tables serialized in sorted order) is listed in known_findings.json.",
+        design="DESIGN.md §4 C11",
+    ),
+    "C20": dict(
+        rules="R20.1, R12.3, R20.2",
+        what="every loop that re-queues deferred work has a per-iteration counter compared with a constant bound that leaves the loop; type-checker deferral limited by pass_num < last_pass; partial arithmetic operators of the constant folders guarded against every failure precondition",
+        quant="input programs",
+        technique="CFG cycle/must-pass queries for counter-bounded fix-points; guard-chain analysis of partial operators",
+        note="Absence of crashes for all inputs is not decided; R20.2 is an inventory (evidence only).",
+        design="DESIGN.md §4 C20",
+    ),
     "C12": dict(
         rules="R12.1-R12.3",
         what="operator spelling vs operator applied in the constant folders and IR opcode selection; operator tables vs the language reference; guard completeness of every partial operator in mypy/constant_fold.py and mypyc/irbuild/constant_fold.py",
